@@ -156,6 +156,59 @@ def run(prog, rep, tier='quick', config='default'):
             rep.ok('R10c', k, where=f.where(buy), fn=f.name,
                    detail='Buy(shares = final balance, price = cost base / balance, commission 0) dated at the last summarised settlement date, for the given affiliate')
 
+    # ------------------------------------------------------------------ R10e: one synthetic sale per summarised year
+    annual = [f for f in fns if f.kind in ('Fn', 'AssocFn') and any(c.callee == 'time::Date::year' for c in f.calls) and
+              any(s['r']['rv'] == 'agg' and s['r']['kind'].endswith('SellTxSpecifics::SellTxSpecifics') for b in f.blocks.values() for s in b['stmts'])]
+    if rep.anchor('annual-gains summary generator (per-year synthetic sales)', annual):
+        f = annual[0]
+        done = False
+        for (nc, header, body) in f.iterator_loops():
+            if not re.search(r'vec::IntoIter<i32>|slice::Iter<\'_, i32>', f.ty.get(nc.arg_local(0), '')):
+                continue
+            pushes = {c.bb for c in f.calls if c.bb in body and c.short == 'push' and 'model::tx::Tx' in f.ty.get(c.arg_local(0), '')}
+            if not pushes:
+                continue
+            sw = f.blocks[nc.target]['term'] if nc.target in f.blocks else None
+            entry = ([tg for v, tg in sw['targets'] if v == 1] or [sw['otherwise']])[0] if sw and sw['t'] == 'switch' else None
+            done = True
+            if entry is not None and not f.reaches(entry, header, avoid=pushes):
+                rep.ok('R10e', '%s|one-sale-per-summarised-year' % f.name, where=nc.where(), fn=f.name,
+                       detail='every year of the list produces a synthetic sale (the base purchase is sized with one extra share per listed year)')
+            else:
+                rep.violation('R10e', '%s|one-sale-per-summarised-year' % f.name, where=nc.where(), fn=f.name,
+                              detail='a summarised year can be skipped without its synthetic one-share sale, while the base purchase still carries one extra share per '
+                                     'year: the summary leaves a phantom share (and its cost) in the position')
+        if not done:
+            rep.violation('R10e', 'anchor-lost:per-year-loop', fn=f.name, detail='anchor lost: loop over the years with gains that emits the synthetic sales')
+
+    # ------------------------------------------------------------------ R10f: the boundary is set by the FIRST later superficial loss
+    bfn = [f for f in fns if f.kind in ('Fn', 'AssocFn') and any(c.callee == first.name for c in f.calls) and not any(c.callee.endswith('last_day_in_superficial_loss_period') for c in f.calls)
+           and len([1 for (nc, h, b) in f.iterator_loops()]) >= 2]
+    if rep.anchor('summary-range function (scans for later superficial losses)', bfn):
+        f = bfn[0]
+        hit = False
+        for (nc, header, body) in f.iterator_loops():
+            ity = f.ty.get(nc.arg_local(0), '')
+            if not re.search(r'^&mut std::slice::Iter<.*TxDelta', ity):
+                continue
+            sw = f.blocks[nc.target]['term'] if nc.target in f.blocks else None
+            entry = ([tg for v, tg in sw['targets'] if v == 1] or [sw['otherwise']])[0] if sw and sw['t'] == 'switch' else None
+            region = {b2 for b2 in f.blocks if entry is not None and f.dominates(entry, b2)}
+            wcalls = [c for c in f.calls if c.bb in region and c.callee == first.name]
+            if not wcalls:
+                continue
+            hit = True
+            back = [c for c in wcalls if f.reaches(c.bb, header)]
+            k = '%s|first-later-loss-sets-the-boundary' % f.name
+            if back:
+                rep.violation('R10f', k, where=back[0].where(), fn=f.name,
+                              detail='the forward scan over the rows after the summary date keeps going after a superficial loss was found and can overwrite the window '
+                                     'start with that of a LATER loss: rows inside the first loss\'s window would be summarised away')
+            else:
+                rep.ok('R10f', k, where=wcalls[0].where(), fn=f.name, detail='the scan stops at the first later superficial loss (no path from the window computation back to the loop head)')
+        if not hit:
+            rep.violation('R10f', 'anchor-lost:forward-scan', fn=f.name, detail='anchor lost: forward scan over the deltas after the summary date')
+
     # ------------------------------------------------------------------ R10d
     host = [f for f in fns if f.kind in ('Fn', 'AssocFn') and any(c.callee == (simple[0].name if simple else '') for c in f.calls)]
     if host:
